@@ -9,19 +9,17 @@
    * / + - ** @ == != ^ |  x  {single-valued, 3-valued} = 8320 cells.  Proofs are by [vm_compute] over that
    enumeration, lifted to [forall c, In c all_cells -> ...] with [forallb_forall].
 
-   FULL-STRENGTH STATEMENT (false of the code as it is, see the _refuted theorems):
+   FULL-STRENGTH STATEMENT, now proved without any guard (C08_table):
        forall c, In c all_cells -> conforms (spec_of H c) (model H c) = true
    i.e. a Must cell returns the documented class (freshly computed), a May cell returns it or raises, every other
-   arithmetic cell raises.  It is proved under the guard [cause_of H c = None] (C08_table_partial); the guard is
-   exact (C08_causes_exact): every excluded cell violates the statement, with the outcome named by its root cause. *)
+   arithmetic cell raises.  Before the fix rounds this was false of the code in 438 cells through 10 root causes and the
+   theorem carried the guard [cause_of H c = None] with ten _refuted witnesses; every cause has been repaired
+   (docs/C08.md lists the commits) and the guard, the cause predicates and the witnesses are gone. *)
 From Coq Require Import List Bool Arith NArith.
 Import ListNotations.
 From SM Require Import Model.C08_Ops.
 From SMgen Require Import Hierarchy_C08.
 
-Ltac table := apply table_forall; vm_compute; reflexivity.
-
-(* ------------------------------------------------------------------ the domain and the regenerated hierarchy *)
 Theorem C08_domain_size : N.of_nat (length all_cells) = 8320%N.
 Proof. vm_compute. reflexivity. Qed.
 Print Assumptions C08_domain_size.
@@ -36,107 +34,75 @@ Proof.
 Qed.
 Print Assumptions C08_model_total.
 
-(* ------------------------------------------------------------------ the table *)
-(* the property, for every cell that none of the known root causes covers *)
-Theorem C08_table_partial : forall c, In c all_cells -> cause_of H c = None -> cell_ok H c = true.
-Proof.
-  intros c Hin Hc.
-  apply (table_forall (fun c => negb (is_none (cause_of H c)) || cell_ok H c)) in Hin.
-  - rewrite Hc in Hin. exact Hin.
-  - vm_compute. reflexivity.
-Qed.
-Print Assumptions C08_table_partial.
+(* ------------------------------------------------------------------ the table: the property, for EVERY cell *)
+Theorem C08_table : forall c, In c all_cells -> cell_ok H c = true.
+Proof. apply table_forall. vm_compute. reflexivity. Qed.
+Print Assumptions C08_table.
 
-(* non-vacuity of the guard: 7912 of the 8320 cells satisfy it, among them 145 of the 167 Must cells *)
-Example C08_table_partial_nonvacuous :
-  N.of_nat (length (filter (fun c => is_none (cause_of H c)) all_cells)) = 7912%N /\
-  length (filter (fun c => is_none (cause_of H c) && match spec_of H c with Must _ => true | _ => false end) all_cells) = 145 /\
-  cause_of H {| c_n := 3; c_op := Mul; c_l := Obj Twist3; c_r := Obj SE3 |} = None /\
-  model H {| c_n := 3; c_op := Mul; c_l := Obj Twist3; c_r := Obj SE3 |} = Value (RObj SE3) Computed.
-Proof. vm_compute. repeat split; reflexivity. Qed.
-
-(* the guard is exact: every excluded cell does violate the full statement, and shows the outcome of its root cause *)
-Theorem C08_causes_exact : forall c k, In c all_cells -> cause_of H c = Some k ->
-  cell_ok H c = false /\ model H c = cause_outcome H k (c_n c) (c_op c) (c_l c) (c_r c).
-Proof.
-  intros c k Hin Hc.
-  apply (table_forall (fun c => match cause_of H c with
-                                | None => true
-                                | Some k => negb (cell_ok H c) && outcome_beq (model H c) (cause_outcome H k (c_n c) (c_op c) (c_l c) (c_r c))
-                                end)) in Hin.
-  - rewrite Hc in Hin. apply andb_true_iff in Hin. destruct Hin as [H1 H2].
-    split. now apply negb_true_iff in H1. now apply outcome_beq_true.
-  - vm_compute. reflexivity.
-Qed.
-Print Assumptions C08_causes_exact.
-
-(* how many cells each root cause accounts for (408 in all) *)
-Theorem C08_cause_census :
-  map (fun k => length (filter (fun c => match cause_of H c with Some k' => cause_beq k k' | None => false end) all_cells))
-      [Op2FallThrough; IsinstanceAsym; UserListAdd; UserListRepeat; DQMulNone; UserListEq; PluckerEqMulti]
-  = [268; 8; 28; 8; 74; 20; 2].
+(* what the table contains: 167 Must cells, 249 May cells, 4652 cells that must raise, 3252 unconstrained comparisons;
+   614 cells return a value *)
+Example C08_table_census :
+  map (fun p => length (filter p all_cells))
+      [ (fun c => match spec_of H c with Must _ => true | _ => false end);
+        (fun c => match spec_of H c with May _ => true | _ => false end);
+        (fun c => match spec_of H c with MustRaise => true | _ => false end);
+        (fun c => match spec_of H c with Free => true | _ => false end);
+        (fun c => match model H c with Value _ _ => true | _ => false end) ]
+  = [167; 249; 4652; 3252; 614].
 Proof. vm_compute. reflexivity. Qed.
-Print Assumptions C08_cause_census.
 
-(* "in particular never None, an identity, or an object holding foreign elements": outside the known root causes an
-   arithmetic operator either raises or returns freshly computed elements *)
-Theorem C08_no_none_identity_foreign_partial : forall c, In c all_cells -> arith_op (c_op c) = true -> cause_of H c = None ->
-  is_computed_or_raise (model H c) = true.
-Proof.
-  intros c Hin Ha Hc.
-  apply (table_forall (fun c => negb (arith_op (c_op c)) || negb (is_none (cause_of H c)) || is_computed_or_raise (model H c))) in Hin.
-  - rewrite Ha, Hc in Hin. exact Hin.
-  - vm_compute. reflexivity.
-Qed.
-Print Assumptions C08_no_none_identity_foreign_partial.
+(* "in particular never None, an identity, or an object holding foreign elements": on the WHOLE table (comparison
+   operators included) an operator either raises or returns freshly computed elements *)
+Theorem C08_no_none_identity_foreign : forall c, In c all_cells -> is_computed_or_raise (model H c) = true.
+Proof. apply table_forall. vm_compute. reflexivity. Qed.
+Print Assumptions C08_no_none_identity_foreign.
 
-(* every pairing the documentation does not define raises (outside the known root causes) *)
-Theorem C08_undocumented_raises_partial : forall c, In c all_cells -> spec_of H c = MustRaise -> cause_of H c = None -> model H c = Raise.
+(* every pairing under an arithmetic operator that the documentation does not define raises *)
+Theorem C08_undocumented_raises : forall c, In c all_cells -> spec_of H c = MustRaise -> model H c = Raise.
 Proof.
-  intros c Hin Hs Hc. pose proof (C08_table_partial c Hin Hc) as Hok.
+  intros c Hin Hs. pose proof (C08_table c Hin) as Hok.
   unfold cell_ok in Hok. rewrite Hs in Hok. now apply outcome_beq_true.
 Qed.
-Print Assumptions C08_undocumented_raises_partial.
-Example C08_undocumented_raises_nonvacuous :
-  N.of_nat (length (filter (fun c => is_none (cause_of H c) && match spec_of H c with MustRaise => true | _ => false end) all_cells)) = 4266%N.
-Proof. vm_compute. reflexivity. Qed.
+Print Assumptions C08_undocumented_raises.
 
 (* the pairs the property text names return the documented class, freshly computed *)
-Theorem C08_documented_pairs_return_partial : forall c r, In c all_cells -> spec_of H c = Must r -> cause_of H c = None ->
-  model H c = Value r Computed.
+Theorem C08_documented_pairs_return : forall c r, In c all_cells -> spec_of H c = Must r -> model H c = Value r Computed.
 Proof.
-  intros c r Hin Hs Hc. pose proof (C08_table_partial c Hin Hc) as Hok.
+  intros c r Hin Hs. pose proof (C08_table c Hin) as Hok.
   unfold cell_ok in Hok. rewrite Hs in Hok. now apply outcome_beq_true.
 Qed.
-Print Assumptions C08_documented_pairs_return_partial.
+Print Assumptions C08_documented_pairs_return.
+
+(* a value is returned ONLY for documented pairs, and it has the documented class *)
+Theorem C08_value_only_if_documented : forall c r p, In c all_cells -> arith_op (c_op c) = true -> model H c = Value r p ->
+  p = Computed /\ (spec_of H c = Must r \/ spec_of H c = May r).
+Proof.
+  intros c r p Hin Ha Hm.
+  apply (table_forall (fun c => negb (arith_op (c_op c)) ||
+           match model H c with
+           | Value r p => match p with Computed => true | _ => false end
+                          && match spec_of H c with Must r' | May r' => rkind_beq r r' | _ => false end
+           | _ => true end)) in Hin.
+  - rewrite Ha, Hm in Hin. simpl in Hin. apply andb_true_iff in Hin. destruct Hin as [H1 H2].
+    destruct p; try discriminate. split; [reflexivity|].
+    destruct (spec_of H c) as [r' | r' | |]; try discriminate;
+      apply internal_rkind_dec_bl in H2; subst; [left | right]; reflexivity.
+  - vm_compute. reflexivity.
+Qed.
+Print Assumptions C08_value_only_if_documented.
 
 (* ------------------------------------------------------------------ the same, on a larger table *)
 (* lengths 1..4 and nine further array shapes (2-, 4-, 6-vectors, 2x2, 6x6, 3x5, 2x3, 3x1, 1x3): 28160 cells.  Not part of the
-   property's stated domain; it shows that guard and model are not fitted to the 8320 cells (the check also runs the
-   implementation on this table in the thorough tier). *)
-Theorem C08_extended_table_partial : forall c, In c ext_cells -> cause_of H c = None -> cell_ok H c = true /\ model H c <> Unmodelled.
+   property's stated domain; it shows that the model is not fitted to the 8320 cells (the check also runs the
+   implementation on this table). *)
+Theorem C08_extended_table : forall c, In c ext_cells -> cell_ok H c = true /\ model H c <> Unmodelled /\ is_computed_or_raise (model H c) = true.
 Proof.
-  intros c Hin Hc.
-  apply (table_forall (fun c => negb (is_none (cause_of H c)) || (cell_ok H c && negb (outcome_beq (model H c) Unmodelled)))) in Hin.
-  - rewrite Hc in Hin. simpl in Hin. apply andb_true_iff in Hin. destruct Hin as [H1 H2].
-    split; [exact H1 | apply outcome_beq_false; now apply negb_true_iff in H2].
+  intros c Hin.
+  apply (table_forall (fun c => cell_ok H c && negb (outcome_beq (model H c) Unmodelled) && is_computed_or_raise (model H c))) in Hin.
+  - apply andb_true_iff in Hin. destruct Hin as [Hin H3]. apply andb_true_iff in Hin. destruct Hin as [H1 H2].
+    repeat split; [exact H1 | apply outcome_beq_false; now apply negb_true_iff in H2 | exact H3].
   - vm_compute. reflexivity.
 Qed.
-Print Assumptions C08_extended_table_partial.
-Theorem C08_extended_causes_exact : forall c k, In c ext_cells -> cause_of H c = Some k ->
-  cell_ok H c = false /\ model H c = cause_outcome H k (c_n c) (c_op c) (c_l c) (c_r c).
-Proof.
-  intros c k Hin Hc.
-  apply (table_forall (fun c => match cause_of H c with
-                                | None => true
-                                | Some k => negb (cell_ok H c) && outcome_beq (model H c) (cause_outcome H k (c_n c) (c_op c) (c_l c) (c_r c))
-                                end)) in Hin.
-  - rewrite Hc in Hin. apply andb_true_iff in Hin. destruct Hin as [H1 H2].
-    split. now apply negb_true_iff in H1. now apply outcome_beq_true.
-  - vm_compute. reflexivity.
-Qed.
-Print Assumptions C08_extended_causes_exact.
-Example C08_extended_nonvacuous :
-  N.of_nat (length ext_cells) = 28160%N /\ N.of_nat (length (filter (fun c => is_none (cause_of H c)) ext_cells)) = 26974%N.
-Proof. vm_compute. split; reflexivity. Qed.
-
+Print Assumptions C08_extended_table.
+Example C08_extended_size : N.of_nat (length ext_cells) = 28160%N.
+Proof. vm_compute. reflexivity. Qed.
